@@ -525,6 +525,13 @@ def _airy(p):
     d2 = fr.one_step_spacing(N, wvl, d1, f)       # signed; the pattern is symmetric
     U = numpy.asarray(op.lensAgainst(pupil.copy(), wvl, d1, f))
     o.stat("lib_calls", 1)
+    # an aperture is normally a real 0/1 mask (aotools.circle returns float): the same aperture stored as float,
+    # int or bool gives the same focal-plane field as its complex copy, over the whole plane
+    for dt in (float, numpy.int64, bool, numpy.float32):
+        Ur = numpy.asarray(op.lensAgainst(pupil.real.astype(dt), wvl, d1, f))
+        o.stat("lib_calls", 1)
+        o.close("airy_real_mask_equals_complex_mask", _maxabs(Ur - U) / _maxabs(U) if Ur.shape == U.shape else float("inf"),
+                1e-6 if dt is numpy.float32 else 1e-12, sub=numpy.dtype(dt).name)
     I = numpy.abs(U) ** 2
     npix = float(pupil.real.sum())
     # on-axis amplitude = (1 / lambda f) * integral of the pupil (exact for the sampled pupil)
